@@ -198,7 +198,8 @@ class Gen:
     def directive(self, d):
         r = self.r
         base = r.wpick([(3, "v-show"), (3, "v-custom"), (2, "vCus"), (2, "vFooBar"), (3, "v-model"), (1, "vModel"),
-                        (2, "v-html"), (2, "v-text"), (2, "v-slots"), (1, "v-models"), (1, "v--x"), (1, "vvX"), (1, "vHtml")])
+                        (2, "v-html"), (2, "v-text"), (2, "v-slots"), (1, "v-models"), (1, "v--x"), (1, "vvX"), (1, "vHtml"),
+                        (2, "v-validate"), (1, "v-v-x"), (1, "vVisible"), (1, "v-vv"), (1, "v-Show"), (1, "vShow")])
         self.f("dir:" + base)
         name = base
         heavy = getattr(self, "dir_heavy", False)
@@ -393,7 +394,11 @@ class Gen:
     def elem(self, d=2):
         r = self.r
         t = self.tag()
-        attrs = " ".join(self.attr(d) for _ in range(r.wpick([(3, 0), (4, 1), (4, 2), (3, 3), (2, 4), (1, 6)])))
+        alist = [self.attr(d) for _ in range(r.wpick([(3, 0), (4, 1), (4, 2), (3, 3), (2, 4), (1, 6)]))]
+        names = [a.split("=")[0].strip() for a in alist if not a.startswith("{")]
+        if len(set(names)) != len(names):
+            self.f("attr:repeated")       # the same attribute name written twice on one element
+        attrs = " ".join(alist)
         if r.chance(1, 4):
             return f"<{t} {attrs} />"
         return f"<{t} {attrs}>{self.children(d)}</{t}>"
@@ -454,7 +459,7 @@ class Gen:
                 parts.append(self.comment())
             if r.chance(1, 3):
                 parts.append(self.distractor(2) + "\n")
-            ctx = r.below(10)
+            ctx = r.below(13)
             e = self.expr(3) if r.chance(1, 4) else self.elem(2)
             self.f("ctx:%d" % ctx)
             if ctx <= 3:
@@ -469,6 +474,12 @@ class Gen:
                 parts.append(f"g({e}, function () {{ return 1 }});\n")
             elif ctx == 8:
                 parts.append(f"a = {e};\n")
+            elif ctx == 10:
+                parts.append(f"const ab{len(parts)} = (p, fb = {e}) => {{ return p ?? fb }};\n")
+            elif ctx == 11:
+                parts.append(f"export const ad{len(parts)} = ({{ icon = {e}, label }}, [first = {self.elem(1)}] = []) => {{ const k = 1; return {self.elem(1)} }};\n")
+            elif ctx == 12:
+                parts.append(f"const o{len(parts)} = {{ m(p = {e}) {{ return p }}, k: function (q = {self.elem(1)}) {{ return q }}, async *g(r = {e}) {{ yield r }} }};\n")
             else:
                 parts.append(f"({e});\n")
         return "".join(parts)
@@ -564,6 +575,7 @@ SCOPE_CTX = [
     "const arr = [{E}, () => {F}];\n", "foo = {E};\nval = {F};\n",
     "class W2 extends Foo { constructor() { super(); this.x = {E} } static { b = {F} } }\n",
     # a component whose only child is the variable being assigned: the child is captured in a copy
+    "const f10 = (p, fb = {E}) => { return p ?? fb };\n", "const f11 = ({ icon = {E}, label }) => { const k = 1; return {F} };\n",
     "const f5 = (a) => (a = <Comp>{a}</Comp>);\n", "const f6 = (val) => { val = <Comp>{val}</Comp>; return {E} };\n",
     "function f7(foo) { return foo = <NS.Item>{foo}</NS.Item> }\n", "b = <Comp>{b}</Comp>;\n",
     "class W3 { m(a) { a = <Comp>{a}</Comp>; return a } }\n", "const f8 = (q = (b = <Comp>{b}</Comp>)) => q;\n",
@@ -622,7 +634,10 @@ ATOM_TYPES = ["string", "number", "boolean", "object", "bigint", "symbol", "null
               "RegExp", "Error", "Array<string>", "Function", "Object", "Record<string, any>", "Partial<{ a: 1 }>", "Readonly<{ a: 1 }>",
               "Uppercase<'a'>", "Parameters<typeof fn>", "InstanceType<typeof Foo>", "NonNullable<string | null>",
               "Exclude<string | number, number>", "Extract<string | number, number>", "Foo", "Imported", "NS.T", "keyof Foo", "typeof fn",
-              "T0", "I0", "Arr0[number]", "Tup0[0]", "Tup0[number]", "Obj0['k']", "Obj0[string]", "Obj0['k' | 'j']", "Array<string>[number]"]
+              "T0", "I0", "Arr0[number]", "Tup0[0]", "Tup0[number]", "Obj0['k']", "Obj0[string]", "Obj0['k' | 'j']", "Array<string>[number]",
+              "Extract<string | string[], string | object>", "Extract<Date | number, object>", "Extract<number | Map<string, number>, object | number>",
+              "Exclude<string | string[], number>", "NonNullable<string[] | null>",
+              "I0['a']", "J1['a']", "J1['b']", "J1['zz']", "I0[number]", "J1['a' | 'b']"]
 OBJ = {"object", "array", "date", "map", "set", "weakmap", "promise", "regexp", "error"}
 # JavaScript value kinds a type can have; "ANY" = anything; None = outside the property's grammar
 ATOM_KINDS = {
@@ -639,6 +654,12 @@ ATOM_KINDS = {
     "Imported": None, "NS.T": None, "keyof Foo": None, "typeof fn": None, "T0": {"string", "number"}, "I0": {"object", "function"},
     "Arr0[number]": {"boolean"}, "Tup0[0]": {"string"}, "Tup0[number]": {"string", "number"}, "Obj0['k']": {"date"},
     "Obj0[string]": "ANY", "Obj0['k' | 'j']": {"date", "number"}, "Array<string>[number]": {"string"},
+    # indexed access on an interface: own key, inherited key, absent key (not TypeScript), number index
+    "I0['a']": {"number"}, "J1['a']": {"number"}, "J1['b']": {"number"}, "J1['zz']": None, "I0[number]": None,
+    "J1['a' | 'b']": {"number"},
+    "Extract<string | string[], string | object>": {"string", "array"}, "Extract<Date | number, object>": {"date"},
+    "Extract<number | Map<string, number>, object | number>": {"number", "map"},
+    "Exclude<string | string[], number>": {"string", "array"}, "NonNullable<string[] | null>": {"array"},
 }
 
 
@@ -652,7 +673,7 @@ def kinds_union(a, b):
     return set(a) | set(b)
 
 
-TYPE_PRELUDE = ("class Foo {}\nfunction fn(a: number, b: string) {}\ntype T0 = string | number;\ninterface I0 { a: 1; (): void }\n"
+TYPE_PRELUDE = ("class Foo {}\nfunction fn(a: number, b: string) {}\ntype T0 = string | number;\ninterface I0 { a: 1; (): void }\ninterface J1 extends I0 { b: 2 }\n"
                 "type Arr0 = boolean[];\ntype Tup0 = [string, number];\ntype Obj0 = { k: Date; j: number; m(): void; [x: string]: any };\n")
 PROP_KEYS = ["foo", "bar", "'baz-q'", "qux", "msg", "'onUpdate:x'", "count", "1", "'label'", "'size'"]
 
@@ -820,6 +841,14 @@ class TGen(Gen):
             if focus and j == 0:
                 kind = "method"
             tt, kk, tg = self.atype(1)
+            if getattr(self, "focus_defaults", False):
+                # function types alone and inside unions, in both orders: only `type: Function` alone
+                # makes Vue keep a function default as it is
+                kind = "prop"
+                tt, kk = r.pick([("((n: number) => string) | string", {"function", "string"}), ("string | (() => void)", {"function", "string"}),
+                                 ("(() => void)", {"function"}), ("Function", {"function"}), ("(() => void) | (new () => Foo)", {"function"}),
+                                 ("number | Function | string", {"function", "number", "string"})])
+                tg = set()
             opt = r.chance(1, 2) if kind != "getter" else False
             if focus:
                 # Partial<> needs an all-optional map, Required<> an all-required one
@@ -863,6 +892,9 @@ class TGen(Gen):
         """(text, form, {key: (kind-of-default, written text)})"""
         r = self.r
         form = r.below(8)
+        fd = getattr(self, "focus_defaults", False)
+        if fd:
+            form = 5
         self.f("defaults:%d" % form)
         self.default_info = {"form": "none", "per_key": {}}
         if form <= 1 or not M:
@@ -878,6 +910,8 @@ class TGen(Gen):
             c = r.below(9)
             if k.startswith("'") and kk.isidentifier() and r.chance(1, 2):
                 c = 7
+            if fd:
+                c = r.pick([2, 2, 3, 1])
             if c == 0:
                 continue
             if c == 1:
@@ -994,6 +1028,8 @@ def gen_types_cases(seed, n, start_id=0):
     out = []
     for i in range(n):
         g = TGen(Rng(seed * 7368787 + i))
+        if i % 6 == 4:
+            g.focus_defaults = True
         if i % 6 == 5:
             # every sixth module: a utility type over a map that contains a method signature
             g.focus_ops = True
